@@ -252,6 +252,10 @@ func FlowMod() *Mod[flow.Rule] {
 	}
 	m.Probe = func(res string) (bool, *flow.Rule) {
 		Clk.AddMs(2000)
+		// scope: loading and clearing rules of ANOTHER resource - the one the associated-resource rules of res
+		// refer to - through the per-resource path leaves the rules of res in force and fed as before
+		flow.LoadRulesOfResource(res+"-ref", []*flow.Rule{{ID: "999", Resource: res + "-ref", Threshold: 1e9}})
+		flow.ClearRulesOfResource(res + "-ref")
 		for i := 0; i < 3; i++ { // traffic on the referenced resource (it has no rules of its own)
 			if e, b := sentinel.Entry(res + "-ref"); b == nil {
 				e.Exit()
